@@ -9,10 +9,13 @@
     - the chunked copy of the implementation equals the byte-wise copy; every copied byte equals the byte [off] back;
     - the repeat-offset rules are the RFC's table (C14);
     - raw and RLE blocks regenerate their content; block headers are read as the RFC lays them out (C14);
-    - the window buffer underneath is a byte queue for every operation sequence (C04). *)
+    - the window buffer underneath is a byte queue for every operation sequence (C04);
+    - the decoder inverts the format's block writer (last theorem of this file), and at the level of the sequences
+      section any combination of the four table modes round-trips (C12_sequences_section_with_any_table_modes). *)
 Require Import Zrs.lib.RsPrelude Zrs.gen.Generated Zrs.model.BitIO Zrs.model.FseDec Zrs.model.HufDec Zrs.model.BlockDec.
 Require Import Zrs.proofs.C06_Drain Zrs.proofs.C05_Block Zrs.proofs.C09_Lz Zrs.proofs.C01_Exec Zrs.proofs.C14_Headers
   Zrs.proofs.C17_Matcher Zrs.proofs.C02_Roundtrip.
+Require Import Zrs.model.Headers Zrs.model.SeqSection Zrs.model.BlockEnc Zrs.model.LitEnc Zrs.proofs.C12_SeqStream Zrs.proofs.C02_BlockGen Zrs.proofs.C02_HufSide.
 Open Scope Z_scope.
 
 Theorem C01_sequence_execution_is_the_reference : forall seqs lits buf hist buf' hist',
@@ -50,6 +53,41 @@ Example C01_reference_non_vacuous :
   ref_exec [{| sq_ll := 2; sq_ml := 4; sq_of := 5 |}] [7; 8; 9] [] [1; 4; 8] = Some ([8; 7; 8; 7; 8; 7], [2; 1; 4], [9]).
 Proof. vm_compute. reflexivity. Qed.
 
+(** *** the decoder inverts the format's block writer
+
+    A compressed block written from ANY literals and ANY list of sequences -- a literals section in any encoding the
+    literals decoder reads back (raw, RLE, Huffman-coded with or without a table description: the hypotheses [Hhdr],
+    [Hlits] below; for Huffman coding they hold for every decoder table by C13/C02), followed by the sequences section
+    with FSE-described tables for any three normalised distributions that cover the codes used ([section_hyps_b]) --
+    decodes to exactly those literals and sequences, which are then executed (and execution is the reference LZ77
+    semantics by the first theorem of this file).  The table modes predefined / RLE / repeat and the one-stream literal
+    layout are outside this writer; they are covered by execution against libzstd and the specification oracle. *)
+Theorem C01_decoder_inverts_the_block_writer :
+  forall (hdr payload : list Z) (ty regen : Z) (comp streams : option Z) (sc : scratch) (ht' : huf_table) (lits : list Z),
+  (forall rest, lit_header_parse (hdr ++ rest) = ROk (zlen hdr, ty, regen, comp, streams)) ->
+  match comp with Some x => x | None => if ty =? 1 then 1 else regen end = zlen payload ->
+  regen = zlen lits /\ regen <= MAX_BLOCK_SIZE ->
+  decode_literals {| ls_type := ty; ls_regen := regen; ls_comp := comp; ls_streams := streams |} (sc_huf sc) payload
+    = ROk (ht', lits, zlen payload) ->
+  forall dl do dm seqs sp,
+  seq_part dl do dm seqs = ROk sp -> Z.of_nat (length seqs) <= 98047 ->
+  (seqs <> [] -> section_hyps_b dl do dm seqs = true) ->
+  t_max_symbol (fs_ll (sc_fse sc)) = MAX_LITERAL_LENGTH_CODE -> t_max_symbol (fs_of (sc_fse sc)) = MAX_OFFSET_CODE ->
+  t_max_symbol (fs_ml (sc_fse sc)) = MAX_MATCH_LENGTH_CODE ->
+  decompress_block (zlen (hdr ++ payload ++ sp)) sc (hdr ++ payload ++ sp) =
+    match seqs with
+    | [] => ROk {| sc_huf := ht'; sc_fse := sc_fse sc; sc_buf := db_push (sc_buf sc) lits; sc_hist := sc_hist sc |}
+    | _ =>
+        match build_table MAX_LITERAL_LENGTH_CODE dl, build_table MAX_MATCH_LENGTH_CODE dm, build_table MAX_OFFSET_CODE do with
+        | ROk Dll, ROk Dml, ROk Dof =>
+            let* (buf, hist) := execute_sequences seqs lits (sc_buf sc) (sc_hist sc) in
+            ROk {| sc_huf := ht'; sc_fse := C12_SeqStream.sc Dll Dml Dof; sc_buf := buf; sc_hist := hist |}
+        | _, _, _ => RErr "tables"
+        end
+    end.
+Proof. exact block_decodes. Qed.
+
+Print Assumptions C01_decoder_inverts_the_block_writer.
 Print Assumptions C01_sequence_execution_is_the_reference.
 Print Assumptions C01_decoded_sequences_meet_the_hypothesis.
 Print Assumptions C01_chunked_copy_is_bytewise.
